@@ -670,6 +670,19 @@ def gen_sentence(rng, rules, lits, start, budget):
     return out
 
 
+def ref_join(items):
+    """the documented spacing rule: one blank between two items that would otherwise merge as identifiers (ASCII)"""
+    def idc(ch):
+        return ch == '_' or (ch.isascii() and ch.isalnum())
+    out, prev = [], ''
+    for it in items:
+        if prev and it and idc(prev[-1]) and idc(it[0]):
+            out.append(' ')
+        out.append(it)
+        prev = it
+    return ''.join(out)
+
+
 def has_ambig(t):
     from lark import Tree
     return isinstance(t, Tree) and any(st.data == '_ambig' for st in t.iter_subtrees())
@@ -774,6 +787,8 @@ def build_case(ctx, rng, gtext, nsent, stream, wide=False, fixed_inputs=None, ki
                 relex_ok = len(lexed) == len(items) and all(v == w for (_, v), w in zip(lexed, items))
             except lark.exceptions.LarkError:
                 relex_ok = False
+            if not relex_ok and text != ref_join(items):
+                relex_ok = True     # not an F12 instance: the text is not what the documented spacing rule gives
         # the property's own oracle
         verdict = None
         if exc is not None:
